@@ -295,6 +295,34 @@ func c21Gen(w *bufio.Writer, seed int64, tier string) {
 			}
 			emit("1", ul, "ok.7f000001.8080", "xx", append(append([]byte{5, 1, 2}, up("alice", "pass")...), reqs[0]...))
 			emit("1", ul, "ok.7f000001.8080", "kf", append(append([]byte{5, 2, 0, 2}, up("bob", "builder")...), reqs[1]...))
+			// directed probes for EVERY configured entry (detection must not hinge on a lucky draw):
+			// its name with the empty password, with the name as password, with the literal hash
+			// string as password — on the TCP path, the HTTP Basic gate and the real WebSocket path
+			if ul != "-" {
+				for _, ent := range strings.Split(ul, "/") {
+					fp := strings.Split(ent, ".")
+					name := string(unhexTok(fp[0]))
+					if name == "" || len(name) > 255 {
+						continue
+					}
+					probes := []string{"", name}
+					if len(fp[2]) > 1 && fp[2][0] == 'j' {
+						probes = append(probes, string(unhexTok(fp[2][1:])))
+					}
+					if fp[1] != "-" {
+						pw := string(unhexTok(fp[1]))
+						probes = append(probes, pw, strings.ToUpper(pw))
+					}
+					for _, pr := range probes {
+						if len(pr) > 255 {
+							continue
+						}
+						emit("1", ul, "ok.7f000001.8080", "xx", append(append([]byte{5, 1, 2}, up(name, pr)...), reqs[0]...))
+						fmt.Fprintf(w, "w 1 %s %s.%s\n", ul, hx(name), hx(pr))
+					}
+					fmt.Fprintf(w, "ws 1 %s %s.%s ok.7f000001.8080 xx %s\n", ul, hx(name), hx(""), hexTok(append(append([]byte{5, 1, 2}, up(name, "")...), reqs[0]...)))
+				}
+			}
 			// bcrypt key-length classes against this list, on all three paths
 			if strings.Contains(ul, hx(p71)) || strings.Contains(ul, hx("ab")) {
 				for _, lp := range longPws {
